@@ -758,10 +758,26 @@ def _writer_segment_tag(ctx, einst, ts):
     mm = m
     if m is not None and not any(isinstance(n, ast.Call) and norm(n.func) == 'tag.TagSet' for n in walk_own(m.node)):
         # the time encoders delegate to OctetStringEncoder.encodeValue
-        dele = [n for n in walk_own(m.node) if isinstance(n, ast.Call) and
-                norm(n.func).endswith('OctetStringEncoder.encodeValue')]
-        if dele:
-            mm = ctx.func('codec.ber.encoder.OctetStringEncoder.encodeValue')
+        # an override that delegates to a base class (`Base.encodeValue(self, ...)` / `super().encodeValue(...)`): the time
+        # encoders and the CER BIT STRING encoder
+        hops = 0
+        while hops < 4 and mm is not None and not any(isinstance(n, ast.Call) and norm(n.func) == 'tag.TagSet' for n in walk_own(mm.node)):
+            hops += 1
+            dele = [n for n in walk_own(mm.node) if isinstance(n, ast.Call) and isinstance(n.func, ast.Attribute) and
+                    n.func.attr == 'encodeValue' and not norm(n.func.value).startswith('self')]
+            nxt = None
+            for n in dele:
+                want = norm(n.func.value).split('.')[-1]
+                for c in [x for x in einst.ci.mro if x is not mm.cls]:
+                    d = c.own('encodeValue') if isinstance(c, ClassInfo) else None
+                    if d is not None and d[0] == 'func' and (c.name == want or want.startswith('super(')):
+                        nxt = d[1]
+                        break
+                if nxt is not None:
+                    break
+            if nxt is None:
+                break
+            mm = nxt
     if _encoder_segment_tag_rule(ctx, mm) is None:
         raise AnalysisError('cannot derive the segment tag written by %s' % mm.short)
     base = ts.baseTag
